@@ -1861,16 +1861,6 @@ class RedunBackendDb(RedunBackend):
 
         with self.with_session() as session:
             if not session.query(CallNode).filter_by(call_hash=call_hash).first():
-                session.add(
-                    CallNode(
-                        call_hash=call_hash,
-                        task_name=task_name,
-                        task_hash=task_hash,
-                        args_hash=args_hash,
-                        value_hash=result_hash,
-                    )
-                )
-
                 # Record CallEdges only if child was recorded (might not be if prov=False).
                 recorded_child_hashes = {
                     call_hash
@@ -1880,22 +1870,40 @@ class RedunBackendDb(RedunBackend):
                         child_call_hashes,
                     )
                 }
-                for i, child_call_hash in enumerate(child_call_hashes):
-                    if child_call_hash in recorded_child_hashes:
-                        session.add(
-                            CallEdge(parent_id=call_hash, child_id=child_call_hash, call_order=i)
-                        )
 
-                self._record_args(call_hash, expr_args, eval_args)
+                # First record all Values the CallNode refers to. record_value() commits, and an
+                # existing CallNode is never revisited, so the CallNode, its edges, arguments and
+                # subtree tasks must reach the database together in the single commit below.
+                eval_pos_args, eval_kwargs = eval_args
+                for eval_arg in chain(eval_pos_args, eval_kwargs.values()):
+                    self.record_value(eval_arg)
 
                 # If child nodes were not recorded, then their tasks might not be recorded either.
                 if recorded_child_hashes < set(child_call_hashes):
                     for task in subtree_tasks:
                         self.record_value(task)
 
+                session.add(
+                    CallNode(
+                        call_hash=call_hash,
+                        task_name=task_name,
+                        task_hash=task_hash,
+                        args_hash=args_hash,
+                        value_hash=result_hash,
+                    )
+                )
+                for i, child_call_hash in enumerate(child_call_hashes):
+                    if child_call_hash in recorded_child_hashes:
+                        session.add(
+                            CallEdge(parent_id=call_hash, child_id=child_call_hash, call_order=i)
+                        )
+
                 # Record call subtree tasks.
                 for task in subtree_tasks:
                     session.add(CallSubtreeTask(call_hash=call_hash, task_hash=task.hash))
+
+                # Records the Arguments and commits everything.
+                self._record_args(call_hash, expr_args, eval_args)
                 session.commit()
         return call_hash
 
